@@ -204,11 +204,59 @@ func c14Check(pg *Prog, expectCode int) func(x *vlab.Exec) []vlab.Violation {
 				}
 			}
 		}
+		out = append(out, c14SharedCallee(pg, ev)...)
 		if expectCode >= 0 && x.Code != expectCode {
 			out = append(out, vlab.V("C14", "outcome_changed", fmt.Sprintf("got%d:want%d", x.Code, expectCode), fmt.Sprintf("invocation status %d (%s), expected %d: deferred commands must not change the outcome", x.Code, firstN(x.ErrStr, 100), expectCode)))
 		}
 		return out
 	}
+}
+
+// E4 for a callee whose execution is shared (run: once). The executor logs "skipping execution
+// of task" when a caller finds the execution registered and starts waiting for it: from that
+// trace position on both callers are known to be inside their call of the shared task (one runs
+// it, the other waits), so a deferred command of either caller that starts later is that
+// caller continuing - it may only start after the shared task's last event (its defers included).
+func c14SharedCallee(pg *Prog, ev []vlab.PE) []vlab.Violation {
+	var out []vlab.Violation
+	for _, st := range pg.Tasks {
+		if st.Run != "once" {
+			continue
+		}
+		q, sLast := -1, -1
+		for _, e := range ev {
+			if e.K == 'L' && q < 0 && strings.HasSuffix(e.Extra, ":"+st.Name) {
+				q = e.Pos
+			}
+			if e.Task == st.Name {
+				sLast = e.Pos
+			}
+		}
+		if q < 0 || sLast < 0 {
+			continue
+		}
+		for _, ct := range pg.Tasks {
+			calls := 0
+			for _, c := range ct.Cmds {
+				if c.Call != nil && !c.Defer && c.Call.Task == st.Name {
+					calls++
+				}
+			}
+			if calls == 0 {
+				continue
+			}
+			for _, e := range ev {
+				if e.K != 'S' || e.Task != ct.Name || e.Pos < q || e.Pos > sLast {
+					continue
+				}
+				if j, _ := e.CmdIndex(); j >= 0 && j < len(ct.Cmds) && ct.Cmds[j].Defer {
+					out = append(out, vlab.V("C14", "caller_continued_before_defers", "shared_callee", fmt.Sprintf("%s ran its deferred entry %d at position %d while the shared (run: once) task %s it had called was still running (last event at %d; a caller was waiting for it since %d)", e.Inst(), j, e.Pos, st.Name, sLast, q)))
+					break
+				}
+			}
+		}
+	}
+	return out
 }
 
 func lastOfFirstEvent(es []vlab.PE) int {
@@ -301,7 +349,7 @@ func c14Units(tier string) []*Unit {
 		if tier != "thorough" && len(sp.pg.Tasks) >= 5 {
 			bound, shards = 1, 1
 		}
-		sc := scen(name+"/cinf", sp.pg, vlab.Options{}, "root")
+		sc := scen(name+"/cinf", sp.pg, vlab.Options{WaitLog: true}, "root")
 		us = append(us, &Unit{Name: sc.Name, Sc: sc, Bound: bound, Prune: true, Check: both(c14Check(sp.pg, sp.code), c02Check(sp.pg)), Weight: len(sp.pg.Tasks), Shards: shards})
 		if tier == "thorough" || name == "defer-task-call" {
 			sc := scen(name+"/c1", sp.pg, vlab.Options{Concurrency: 1}, "root")
